@@ -1,11 +1,13 @@
 #!/venv/bin/python
 """Run every claimed check against every seeded change (scratch copy of /repo/src + patch, never executed) and
-tabulate which checks fire.  Writes seeded/RESULTS.json.  Usage: tools/eval_seeded.py [id-prefix ...]"""
+tabulate which checks fire.  Writes seeded/RESULTS.json.  Usage: tools/eval_seeded.py [--merge] [id-prefix ...]"""
 import json, os, shutil, subprocess, sys, tempfile, glob, concurrent.futures as cf
 V = os.path.dirname(os.path.dirname(os.path.abspath(__file__)))
 props = [json.loads(l)["id"] for l in open(os.path.join(V, "properties.jsonl"))]
 props = [p for p in props if os.path.exists(os.path.join(V, "sa", "props", p.lower() + ".py"))]
 sel = sys.argv[1:]
+MERGE = "--merge" in sel   # update the entries of the selected ids in seeded/RESULTS.json, keep the others
+sel = [a for a in sel if a != "--merge"]
 ids = sorted(d for d in os.listdir(os.path.join(V, "seeded")) if os.path.exists(os.path.join(V, "seeded", d, "patch.diff")))
 if sel:
     ids = [i for i in ids if any(i.startswith(s) for s in sel)]
@@ -35,7 +37,7 @@ def run(sid):
     return out
 
 res = []
-with cf.ThreadPoolExecutor(max_workers=8) as ex:
+with cf.ThreadPoolExecutor(max_workers=int(os.environ.get("EVAL_JOBS", "8"))) as ex:
     for r in ex.map(run, ids):
         own = r["id"].split("-")[0]
         status = "CAUGHT" if r["fired"] else ("ERROR" if r["errors"] else "missed")
@@ -44,5 +46,10 @@ with cf.ThreadPoolExecutor(max_workers=8) as ex:
 caught = sum(1 for r in res if r["fired"])
 print("TOTAL %d seeded, caught %d, analysis-error-only %d, missed %d (claimed checks: %s)" % (
     len(res), caught, sum(1 for r in res if not r["fired"] and r["errors"]), sum(1 for r in res if not r["fired"] and not r["errors"]), ",".join(props)))
-if not sel:
+if MERGE and sel:
+    old = json.load(open(os.path.join(V, "seeded", "RESULTS.json")))
+    byid = {r["id"]: r for r in old["results"]}
+    byid.update({r["id"]: r for r in res})
+    json.dump({"claimed_checks": props, "results": [byid[k] for k in sorted(byid)]}, open(os.path.join(V, "seeded", "RESULTS.json"), "w"), indent=1)
+elif not sel:
     json.dump({"claimed_checks": props, "results": res}, open(os.path.join(V, "seeded", "RESULTS.json"), "w"), indent=1)
